@@ -186,6 +186,19 @@ def gen_cases(tier, seed):
         if rng.random() < 0.4:
             fault_or_cancel(rng, spec['transfers'][0], spec)
         cases.append(spec)
+    # (I) executor / subscriber flavours: everything inline in the submitting thread (NonThreadedExecutor), no subscribers,
+    # duck-typed subscribers offering only some callbacks, under small limits, faults and cancels
+    for i in range(150 if quick else 1500):
+        spec = gen.mix(rng, rng.choice([1, 2, 3]), hi=rng.choice([1, 2, 3]))
+        spec['family'] = 'I-flavours'
+        if rng.random() < 0.6:
+            spec['executor'] = 'nonthreaded'
+        for t in spec['transfers']:
+            t['subs'] = rng.choice([None, [{'only': ['on_done']}], [{'only': ['on_progress']}], [{}],
+                                    [{'only': ['on_queued', 'on_done'], 'reenter': {'on_done': ['result', 'done']}}]])
+        if rng.random() < 0.5:
+            fault_or_cancel(rng, spec['transfers'][0], spec)
+        cases.append(spec)
     rng.shuffle(cases)
     return cases
 
